@@ -497,4 +497,57 @@ def loopOwn (results args : List (Option Ty)) (std : List (String × Option Ty))
 def loopOwnOld (results : List (Option Ty)) (std : List (String × Option Ty)) : List (String × Option Ty) :=
   loopOverlay (results.map (fun r => (r, r))) std
 
+/-! ## `Type._to_onnx` / `Type._from_onnx` (with `Shape` / `Natural` in between)
+
+What a TypeProto can say about a tensor: an element type, and *optionally* a shape whose dims each
+carry a value, a parameter name, or nothing. Rank 0 (`shape` present, no dims) and unknown rank
+(`shape` absent) are different protos, and so are a dimension of size 0 and an unknown dimension -
+the places where a truthiness test (`if shape:`, `if dim_value:`) goes wrong. -/
+
+inductive PDim
+  | value (n : Int)
+  | param (s : String)
+  | unset
+  deriving DecidableEq, Repr, Inhabited
+
+inductive PTy
+  | tensor (elem : Nat) (shape : Option (List PDim))
+  | seq (t : PTy)
+  | opt (t : PTy)
+  deriving DecidableEq, Repr, Inhabited
+
+/-- `make_tensor_type_proto` over `Tensor.shape` (= `Shape.to_simple`: an unknown with an empty label
+    is `None`) -/
+def toProtoDim : Dim → PDim
+  | .const n => .value n
+  | .sym s => if s = "" then .unset else .param s
+  | .unk => .unset
+
+def toProto : Ty → PTy
+  | .tensor e sh => .tensor e (sh.map (List.map toProtoDim))
+  | .seq t => .seq (toProto t)
+  | .opt t => .opt (toProto t)
+
+/-- `Natural.simple_from_onnx` then `Natural.from_simple(...).to_simple()` -/
+def fromProtoDim : PDim → Dim
+  | .value n => .const n
+  | .param s => if s = "" then .unk else .sym s
+  | .unset => .unk
+
+/-- `Type._from_onnx`: `Shape.from_onnx(shape).to_simple() if HasField("shape") else None` -/
+def fromProto : PTy → Ty
+  | .tensor e sh => .tensor e (sh.map (List.map fromProtoDim))
+  | .seq t => .seq (fromProto t)
+  | .opt t => .opt (fromProto t)
+
+/-- a symbolic dimension with an empty name is an unknown dimension -/
+def normDim : Dim → Dim
+  | .sym s => if s = "" then .unk else .sym s
+  | d => d
+
+def normTy : Ty → Ty
+  | .tensor e sh => .tensor e (sh.map (List.map normDim))
+  | .seq t => .seq (normTy t)
+  | .opt t => .opt (normTy t)
+
 end Sing
